@@ -93,8 +93,49 @@ claim("C16", "proof",
       "CBMC loop-free full-domain proofs for scalars + bounded exhaustive obligations for composites, against an executable order spec",
       "DESIGN.md section 6 / C16")
 
+claim("C05", "model_checking",
+      "Bounded, exhaustive per generated pattern: rtosc_match(pattern, message) agrees with spec_match (an executable reading of the "
+      "statement with full backtracking, cross-checked natively against an independent recursive matcher on 2e9 triples) for 334 (quick) / "
+      "~1250 (thorough) well-formed patterns from the grammar (literals, #N, {a,b,..}, trailing '/', ':types' alternatives) x EVERY address "
+      "of 0..4 (thorough 0..5) bytes over all non-NUL bytes x every type string of 0..3 tags; indices with every digit symbolic (N-1/N/N+1, "
+      "leading zeros, up to 9 digits) for 8 values of N x 4 pattern shapes; exact-size messages for out-of-bounds reads of the type matcher. "
+      "PROVED for strings of any length (1..4096, loop contracts): memory safety, frame, forward-only cursors and termination of "
+      "rtosc_match_number and of rtosc_match_path (callees by contract). One known finding (alternatives that are a proper prefix of "
+      "another are not backtracked) is listed and matched by a tag computed from the pattern, so every other disagreement is still a violation.",
+      "Trusted: CBMC + SAT (CaDiCaL for two obligations), its atoi/isdigit models (atoi by assumed contract in the proofs), "
+      "spec/pattern_spec.h. rtosc_match_options is bounded (strings <= 12/24 bytes: its `goto retry` back edge cannot carry a loop contract) "
+      "and its contract is assumed beyond that in the path proof; rtosc_match_args (recursive) is bounded. wf_pattern excludes forms the "
+      "statement leaves ambiguous (another #N or an empty/digit-led alternative directly after #N; * ? [ ]).",
+      "CBMC bounded verification of dispatch.c against an executable pattern spec + function/loop contracts for safety and termination",
+      "DESIGN.md section 6 / C05")
+claim("C17", "model_checking",
+      "On the metadata reader of ports.cpp/ports.h, extracted mechanically to C on every run (metaiterator_advance, MetaIterator ctor/"
+      "operator++, MetaContainer begin/end/find/length/operator[], Port::meta): PROVED for any block length <= 2^16 - scan safety, frame, "
+      "termination, result ranges (SAT, quantifier-free contracts) and exact landing of operator++ on the next entry / exact length() (cvc5, "
+      "quantified 'no NUL inside key/value'); BOUNDED, one obligation per block shape (247 quick / 1158 thorough shapes: 1..4 entries "
+      "exhaustively in every with/without/empty-value order, 5..8 entries sampled; bytes symbolic over {a b : = space 1}): iteration yields "
+      "exactly the ghost key/value arrays in order, operator[] returns the first entry's value or NULL, find reports presence, length is the "
+      "block length incl. terminator; blocks produced by the real rMap/rProp/rDoc/rOptions macros (bytes obtained from g++ on port-sugar.h "
+      "on every run) are well formed and decode to the pairs the macros name.",
+      "Trusted: CBMC, SAT, cvc5 for the quantified contract set; extraction rules (method, ref-param, ctor-init, temp-ctor, range-for "
+      "desugaring, struct-lift) listed in evidence. Inside find/operator[] the calls of operator++ are replaced by its view contract "
+      "(asserted of the real operator++ in the same run and cross-checked on small shapes with the real one). Keys do not start with ':'.",
+      "CBMC contracts (SAT + cvc5) on mechanically extracted C++ leaf functions; bounded shape-enumerated obligations against a ghost view",
+      "DESIGN.md section 6 / C17")
+claim("C18", "model_checking",
+      "PARTIAL: only the first sentence of the property (collapsePath) is in reach; lookup by address (Ports::apropos / operator[]) and "
+      "child search (path_search) are STL/lambda code and are NOT covered - a change there is not detected by this check. For "
+      "Ports::collapsePath and its helpers parent_path_p / read_path / move_path (extracted mechanically to C on every run): PROVED for "
+      "any NUL-terminated absolute path <= 2^16 bytes - in-place safety (reads/writes only p[0..len], byte before p and terminator "
+      "untouched), result inside the same buffer, termination of all four loops (helpers by contract); BOUNDED - result string == "
+      "spec_collapse (component stack written from the statement) for EVERY absolute path of 2..12 bytes (quick) / 2..16 (thorough) over "
+      "{'/','.','a','b'}, plus paths of up to 5 / 8 two-byte components each '..' or ordinary ('..' at every position).",
+      "Trusted: CBMC + SAT; extraction rules (ref-param, method-static) listed in evidence. CBMC cannot model the one-before-begin pointer "
+      "the code forms: the function is handed base+1 of a larger object and base[0] is asserted untouched.",
+      "CBMC function/loop contracts + bounded exhaustive strings on mechanically extracted C++ leaf functions", "DESIGN.md section 6 / C18")
+
 _later = "check not built yet in this revision (planned, see DESIGN.md section 6)"
-for k in ("C05", "C17", "C18", "C19"):
+for k in ("C19",):
     NA[k] = _later
 NA["C04"] = "Dispatch, the perfect-hash construction and the callbacks are C++ over std::vector<Port>, std::string, std::function with range-for/lambdas; CBMC's C++ front end rejects the TU and has no contract syntax in C++ mode; the only C ingredient, rtosc_match, is decided under C05."
 NA["C09"] = "walk_ports/walk_ports_recurse/bundle_foreach/port_is_enabled take Ports&, iterate std::vector, call std::function ports and snprintf into the shared buffer; no C-extractable core carries the statement."
